@@ -19,14 +19,32 @@ for fn, exp in (('crc16_t10dif_base', []), ('crc16_t10dif_copy_base', ['assigns'
 
 # ---- igzip/adler32_base.c
 HARNESSES.append(H('adler32_base_safety', ['C04'], 'crc/adler.c', ['igzip/adler32_base.c'], enforce='adler32_base',
-                   also=['C05', 'C15'], timeout=900, checks_on=['unsigned-overflow'], solver='cadical',
+                   also=['C05', 'C15'], timeout=1500, checks_on=['unsigned-overflow'], solver='cadical',
                    expect=['postcondition', 'loop_invariant_step', 'loop_decreases', 'overflow'],
                    replay=('crc.c', 'adler32_base_safety')))
-HARNESSES.append(H('adler32_base_func', ['C04'], 'crc/adler.c', ['igzip/adler32_base.c'], enforce='adler32_base',
-                   timeout=1800, kind='bounded', solver='cadical', defines=['ADLER_FUNC', 'ADLER_BND=1024'],
-                   bounds='length <= 1024 (loops closed by loop contracts; the bound keeps the ghost quotient of B below 2^13, the range in which the SAT back end proves uniqueness of division by 65521; the 2^28 chunk loop is not entered)',
+ADLER_FOLD = 'ghost fold axiom (SA,SB)[i+1]==spec_adler_step((SA,SB)[i],buf[i]) per executed iteration (defines the spec)'
+for nm, bnd, tier, to in (('adler32_base_func', 256, 'quick', 900), ('adler32_base_func_1k', 1024, 'thorough', 2400)):
+    HARNESSES.append(H(nm, ['C04'], 'crc/adler.c', ['igzip/adler32_base.c'], enforce='adler32_base', entry='h_adler32_base_func',
+                       timeout=to, kind='bounded', solver='cadical', tier=tier, defines=['ADLER_FUNC', 'ADLER_BND=%d' % bnd],
+                       bounds='length <= %d (all loops closed by loop contracts; the bound only limits the ghost quotient of B to the '
+                              'range in which the SAT back end proves uniqueness of division by 65521; the 2^28 chunk loop is not '
+                              'entered)' % bnd,
+                       expect=['postcondition', 'loop_invariant_step'], replay=('crc.c', 'adler32_base_func'),
+                       trusted=[ADLER_FOLD]))
+HARNESSES.append(H('adler32_base_congruence', ['C04'], 'crc/adler.c', ['igzip/adler32_base.c'], enforce='adler32_base',
+                   timeout=2400, kind='bounded', solver='cadical', tier='thorough', defines=['ADLER_CONG'],
+                   # everything except the three obligations that are instances of "(a + 65521*q) mod 65521 == a"
+                   # (loop-1 step of the clauses A,B in {S, S+65521} = loop_invariant_step.16/.17, value postcondition.2)
+                   properties=[r'^(?!adler32_base\.loop_invariant_step\.(16|17)$|adler32_base\.postcondition\.2$)'],
+                   bounds='every length <= 2^47, but NOT a complete proof: 3 named obligations (uniqueness of division by 65521 at the '
+                          'reduction points: adler32_base.loop_invariant_step.16, .17, adler32_base.postcondition.2) are excluded, i.e. '
+                          'assumed; they are discharged for length <= 1024 by adler32_base_func_1k',
                    expect=['postcondition', 'loop_invariant_step'], replay=('crc.c', 'adler32_base_func'),
-                   trusted=['ghost fold axiom (SA,SB)[i+1]==spec_adler_step((SA,SB)[i],buf[i]) per executed iteration (defines the spec)']))
+                   trusted=[ADLER_FOLD, 'reduction points: (SA[i] + multiple of 65521) mod 65521 == SA[i] (3 excluded obligations)']))
+HARNESSES.append(H('isal_adler32_bam1', ['C04'], 'crc/adler.c', ['igzip/igzip.c'], enforce='isal_adler32_bam1',
+                   replace=['isal_adler32'], defines=['ADLER_BAM1'], timeout=600, expect=['postcondition'],
+                   trusted=['isal_adler32 (multibinary dispatch): ASSUMED contract -- records arguments/result in ghost '
+                            'variables, both halves of the result < 65521 (the fact proved for adler32_base)']))
 
 # ---- composition lemmas over the contracts (harness/crc/crc_compose.c)
 CFILES = ['crc/crc_base.c', 'crc/crc64_base.c', 'igzip/adler32_base.c']
@@ -37,8 +55,46 @@ for fn in (['crc16_t10dif_base', 'crc32_iscsi_base', 'crc32_ieee_base', 'crc32_g
                                           'rocksoft_refl', 'rocksoft_norm')]):
     HARNESSES.append(H('compose_' + fn, ['C04'], 'crc/crc_compose.c', CFILES, replace=[fn], timeout=600,
                        expect=['assertion', 'precondition', 'loop_invariant_step'], trusted=COMPOSE_TRUST))
-HARNESSES.append(H('compose_adler32_base', ['C04'], 'crc/crc_compose.c', CFILES, replace=['adler32_base'], timeout=900,
-                   kind='bounded', bounds='n1 + n2 <= 1024 (inherits the length bound of the adler32_base_func contract)',
+HARNESSES.append(H('compose_adler32_base', ['C04'], 'crc/crc_compose.c', CFILES, replace=['adler32_base'], timeout=2400, tier='thorough',
+                   kind='bounded', solver='cadical', bounds='n1 + n2 <= 1024 (inherits the length bound of the contract proved by adler32_base_func_1k)',
                    expect=['assertion', 'precondition', 'loop_invariant_step'], trusted=COMPOSE_TRUST))
 HARNESSES.append(H('crc_init_fin_lemmas', ['C04'], 'crc/crc_compose.c', CFILES, timeout=300, expect=['assertion'],
                    min_obligations=5))
+
+PROP_TEXT = {'C04': {
+    'assumptions': [
+        'CRC contracts: lengths up to 2^47 (uint64_t len; verifier pointer-offset width), crc32_iscsi_base: 0 <= len <= INT_MAX '
+        '(negative int len is outside the domain: buffer+len leaves the object); buffers are separate objects of exactly len bytes '
+        '(crc16_t10dif_copy_base: src and dst do not overlap)',
+        'the published check values (spec_selftest) anchor the step functions and polynomials; the seed/final-xor conventions pinned by '
+        'the contracts are isa-l\'s documented ones (crc16_t10dif, crc32_iscsi: raw seed and raw result; crc32_ieee, crc32_gzip_refl, crc64_*: ~seed, ~crc)',
+        'composition (compose_* harnesses): mechanised over the CONTRACTS for one split point n1|n2 (arbitrary): three calls replaced by their '
+        'contracts, fold arrays related by two ghost loops closed by invariants, base case = init(fin(x))==x (crc_init_fin_lemmas). The contract '
+        'shape (the result depends on the seed only through S[0]=init(seed), and ret=fin(S[len])) extends this to any number of pieces by '
+        'induction on the number of pieces (paper step, each step is the mechanised lemma)',
+        'a fold contract ret==fin(S[len]) is meaningful to a caller only for an S that satisfies the fold equations; the compose harnesses '
+        'establish them by GHOST_AXIOM per ghost-loop iteration exactly as the enforcing harnesses do',
+        'hooks refresh moving pointers (p = base + i after asserting p == base + i): identity on the program state, needed because the '
+        'symbolic executor loses the points-to set of a pointer havocked by a loop contract',
+        'adler32_base: functional equality with the per-byte mod-65521 definition (RFC 1950) is proved only for length <= 256 (quick, '
+        'adler32_base_func) / <= 1024 (thorough, adler32_base_func_1k); kind=bounded although every loop is closed by a loop contract '
+        '(ghost quotients, A==SA[i]+65521*qA): the last step, (a+65521*q) mod 65521 == a, is uniqueness of Euclidean division, which '
+        'CBMC\'s SAT back ends prove only for q < 2^16 or so and its SMT back ends (z3, cvc5 as driven by cbmc) not within 5 min; the length '
+        'bound keeps q small. Measured: cvc5 --solve-bv-as-int=sum proves that isolated lemma for 47-bit q in 0.2 s, but not the whole dfcc '
+        'formula (5 min time-out), and cbmc cannot pass solver options. For every length <= 2^47: memory safety, frame, in-order single '
+        'consumption of every byte, absence of 64-bit wrap-around with the 2^28 schedule, reduced result halves (adler32_base_safety, proof)',
+        'adler32_base_congruence (thorough, all lengths incl. the 2^28 chunk loop): every byte step keeps A == SA[i] + 65521*qA and '
+        'B == SB[i] + mB (mB a sum of multiples of 65521 by construction of the ghost update; the formula mB == 65521*qB is not carried); '
+        'the 3 obligations that are uniqueness of division at the reduction points are excluded by name, i.e. ASSUMED there '
+        '(adler32_base.loop_invariant_step.16/.17, adler32_base.postcondition.2) - hence kind=bounded, never counted as proof. The obligation '
+        'numbers are positional: if dfcc renumbers them after a source change the harness times out or fails (undecided/violation), it cannot pass silently '
+        'unless the renumbering happens to exclude a different true obligation',
+        'adler32 seeds with non-reduced halves (>= 65521) are accepted; the reference starts from the reduced halves (identity for every value an Adler routine returns)',
+        'isal_adler32_bam1: the dispatched isal_adler32 enters through an ASSUMED contract (arguments/result recorded in ghost variables, result halves reduced); stored low half < 65521',
+    ],
+    'not_decided': [
+        'adler32_base functional equality for length > 1024 (in particular across the 2^28 deferred-reduction boundary): safety/overflow are proved, the per-byte congruence is proved modulo the three assumed reduction obligations (adler32_base_congruence), the native replay runs 2^28+77 and 2*2^28+3 bytes',
+        'alignment 0..63 is not modelled by the verifier (byte-wise code; the native battery varies alignment)',
+        'crc16_t10dif_copy with overlapping or identical src/dst',
+        'composition for Adler-32 inherits the 1024-byte bound',
+    ]}}
